@@ -262,6 +262,10 @@ func c06Apply(cfg c06Cfg) func(w W, d oop) (string, string) {
 		// derived object: top-level keys/values predicted by the model; nested containers may be shared
 		// or copied (statement allows both): adopt what the implementation exhibits, but the content
 		// must be structurally equal to the predicted value
+		// identical: keys whose value in the result must be the IDENTICAL container the model names (Merge: "prefers
+		// the argument's value" - a value of container kind is a reference, so the result holds the argument's own
+		// container; for the receiver's side the statement is silent and the unchanged tree copies)
+		var identical map[string]interface{}
 		derive := func(wantPanic bool, real func(o at.Object) at.Object, predict func(m *model.O) map[string]interface{}) (string, string) {
 			m := w.Regs[d.R].(*model.O)
 			o := w.RO(m)
@@ -285,6 +289,11 @@ func c06Apply(cfg c06Cfg) func(w W, d oop) (string, string) {
 			for k, wv := range want {
 				if !ret.KeyExists(k) {
 					return fmt.Sprintf("%s on %s gives %s which lacks key %q", name(), model.Show(m), ret.String(), k), "derived/" + kind
+				}
+				if must, ok := identical[k]; ok {
+					if real := w.Real(must); real != nil && ret.Get(k) != real {
+						return fmt.Sprintf("%s on %s: result[%q] is not the argument's own container (a copy or something else was stored)", name(), model.Show(m), k), "derived-identity/" + kind
+					}
 				}
 				got := w.Adopt(ret.Get(k))
 				if !model.DeepEqual(got, wv) {
@@ -332,6 +341,13 @@ func c06Apply(cfg c06Cfg) func(w W, d oop) (string, string) {
 			return mut(false, func(o at.Object) interface{} { return o.Clear() }, func(m *model.O) { m.M = map[string]interface{}{} })
 		case oMerge:
 			other := w.Regs[d.J].(*model.O)
+			identical = map[string]interface{}{}
+			for k, v := range other.M {
+				switch v.(type) {
+				case *model.L, *model.O:
+					identical[k] = v
+				}
+			}
 			return derive(false, func(o at.Object) at.Object { return o.Merge(w.RO(other)) }, func(m *model.O) map[string]interface{} {
 				out := map[string]interface{}{}
 				for k, v := range m.M {
